@@ -666,9 +666,15 @@ def eval_grammar(prop: str, rng: random.Random, gname: str, gtext: str, rules_as
                 # characters before start_pos are never consulted
                 if k > 0:
                     alt = "".join("z" if ch != "z" else "y" for ch in text[:k]) + text[k:]
-                    r3 = run_struct(md.parse[m], start, alt, k)
-                    if r3 != r1:
-                        bad("result depends on characters before start_pos", mode=m, expected=enc_struct(r1)[:300], observed=enc_struct(r3)[:300])
+                    # … nor when they are characters whose case mappings, normal forms or encodings change length
+                    exotic = "\u00df\u0130\ufb01\U0001F600\u0149\u1e9e\n\r\u2028\u0000"
+                    alt2 = "".join(exotic[(i + k) % len(exotic)] for i in range(k)) + text[k:]
+                    for a_ in (alt, alt2):
+                        r3 = run_struct(md.parse[m], start, a_, k)
+                        if r3 != r1:
+                            bad("result depends on characters before start_pos", mode=m, expected=enc_struct(r1)[:300],
+                                observed=enc_struct(r3)[:300], prefix=[ord(c) for c in a_[:k]])
+                            break
         elif prop == "C08" and rules_ast is not None:
             pass  # handled per grammar below (needs the rewritten grammar)
 
